@@ -24,8 +24,21 @@ FLOORS = {"variant_pairs_compared": {"quick": 500, "thorough": 8000}, "child_eva
 BATCH = 24
 
 
+MECH_PASSIVE_ARG = "nested-call-drops-passive-marker-of-argument"
+
+
 def variants(rng, base):
     out = []
+    if rng.random() < 0.25:
+        # passive() on one argument of a call site (inlined: every consumer of that parameter is passive)
+        sites0 = [(g, k) for g, sts in base.graphs.items() for k, st in enumerate(sts) if st.op in ("inline", "nested") and len(st.args) >= 2
+                  and not st.kw.get("pack")]
+        if sites0:
+            g, k = rng.choice(sites0)
+            st = base.graphs[g][k]
+            q = rng.randrange(len(st.args))
+            if not st.args[q].startswith("~"):
+                st.args[q] = "~" + st.args[q]
     sites = [(g, k) for g, sts in base.graphs.items() for k, st in enumerate(sts) if st.op in ("inline", "nested")]
     for tag in ("inl", "nst", "mix", "deep"):
         c = copy.deepcopy(base)
@@ -291,6 +304,11 @@ def check(case, tr):
         r.counters = {"nested_in_dynamic_child_cases": 1, "nested_in_dynamic_child_runs": r.counters.get("instance_runs_compared", 0)}
         return r
     res = Result(signature=case.text().split("\n", 1)[1])
+    if tr.build_error and "passive_would_deactivate_every_input" in str(tr.build_error):
+        # an explicit refusal (the passive() argument would leave an inner node without any active input): not a program
+        res.counters = {"passive_argument_programs_refused_at_build": 1}
+        _groups.setdefault(case.meta["group"], {})
+        return res
     if tr.build_error:
         res.violations.append(Violation(f"valid program rejected at build: {tr.build_error}"))
         return res
@@ -323,6 +341,24 @@ def check(case, tr):
     # wrapper pass nodes (uid >= 100000) exist only in the 'deep' variant: compare modulo them
     known_dev = False
     mism = compare_all(case, run, mr)
+    passive_args = any(st.op == "nested" and any(a.startswith("~") for a in st.args) for sts in case.graphs.values() for st in sts)
+    if mism and passive_args:
+        # known finding F29: the passive() marker of a nested call's argument is dropped
+        from .c03 import EMULATIONS
+        flat2 = M.flatten(case, nested_drops_passive=True)
+        for flags in ({},) + tuple(EMULATIONS):
+            mr2 = M.simulate(flat2, **flags)
+            if not compare_all(case, run, mr2):
+                res.violations.append(Violation("a sub-graph called NESTED with a passive() argument wakes the inner consumers of that parameter on its "
+                                                "ticks; inlined, the marker reaches them and they are not woken", MECH_PASSIVE_ARG))
+                if mr2.sampled:
+                    res.violations.append(Violation(f"all-Unchecked node ran at child start on an unset boundary source: {mr2.sampled[:3]}",
+                                                    "nested-start-samples-unset-source"))
+                if mr2.stale or mr2.stale_armed:
+                    res.violations.append(Violation(f"user code ran at a cancelled wake-up time: {mr2.stale[:3]} {mr2.stale_armed[:3]}",
+                                                    "cancelled-wakeup-still-evaluates"))
+                mr, mism, known_dev = mr2, [], True
+                break
     if mism:
         mr, vs = classify_with_emulations(case, flat, run, mism, compare_all)
         res.violations += vs
